@@ -1,9 +1,13 @@
 /- lhdriver: one operation per line in, one canonical line out. Imports models/specs only. -/
 import LuaHelper.Driver.TextOps
+import LuaHelper.Driver.ConfOps
 open LuaHelper
 
 def dispatch (cmd : String) (args : List String) : String :=
   match TextOps.handle cmd args with
+  | some r => r
+  | none =>
+  match ConfOps.handle cmd args with
   | some r => r
   | none => "bad-op"
 
